@@ -20,6 +20,17 @@ Binding C (spec/EmissionCalls.tla): TLC-generated walks over the public entry po
       integrals per initialisation of the star); every path integral compared with the exact documented integral of its
       sub-composition over the stellar blackbody, every array the integrals share (the star's stored spectrum, profiles,
       opacity arrays handed in, quadrature) re-read after every call; expected counterexamples: a shared array rescaled in place.
+Readings of the Planck table (spec/MC_Emission.tla: InterpTable, exported as INTERP records; spec/PlanckTol.tla): the
+      specification's table is uninterpreted (every clause holds for every positive increasing table), so the exported exact
+      B-sums are replayed under several readings -- layer temperatures 1e-3 .. 1e-8 apart (clause PerLayerSource; expected
+      counterexample: the source function of an earlier layer kept while the temperature "has not changed") and the
+      Rayleigh-Jeans / Wien regimes of planet and star -- each at the tolerance the specification derives for it
+      (1e-12 for the arithmetic of the sum + the rounding the documented Planck formula may carry at that h c nu / k T).
+      The repository's Planck function itself is judged by TLC pair by pair over x = 1e-4 .. 480 (`planck` events).
+Quadrature routes and sizes: every random model is evaluated with the rule asked for through the constructor keyword and,
+      afterwards, through set_num_gauss(n) on the same object; n walks through the size classes 1, 2-4, 5-8, 9-16, 17-32,
+      33-64; Trace_Emission reports the (route, class) cells and decades of x a trace does not cover (machinery failure).
+TLC runs are started ahead (class Prefetch) and consumed in order; the design-level runs are checked at the end.
 History independence (spec/Functional.tla, harness/history.py): long-lived Emission / DirectImage models
       whose spectral window (equally long windows passed to model(wngrid=..)), star temperature, planet
       radius, temperature parameter and k-table set change between evaluations equal freshly built ones.
@@ -857,7 +868,6 @@ def _run_traces(ctx, n_models, n_k, kpath, n_x=0, planck=False, require_cover=Fa
     xrng = random.Random(ctx.seed * 104729 + 19)
     krng = random.Random(ctx.seed * 104729 + 7)
     wrng = random.Random(ctx.seed * 104729 + 13)
-    qrng = random.Random(ctx.seed * 104729 + 17)
     seqs = call_walks(ctx)
     events, meta = [], {}
     direct = []
@@ -897,7 +907,8 @@ def _run_traces(ctx, n_models, n_k, kpath, n_x=0, planck=False, require_cover=Fa
             replay_calls_on_random(ctx, a, kind, kmode, iso, calls, add, vec, cls0, r0)
             # the other public route to the angle quadrature, on the SAME long-lived model: set_num_gauss(n), with n
             # walking through the size classes of the specification (Trace_Emission: NClass)
-            n2 = pick_ngauss(qrng, i + 3)
+            jm = vec['model_index']                   # per model, so that a replay of one mode picks the same n
+            n2 = pick_ngauss(random.Random(ctx.seed * 7919 + (2 if xmode else (1 if kmode else 0)) * 100003 + jm), jm + 3 + (2 if kmode else 0))
             m.set_num_gauss(n2)
             evaluate_and_log(ctx, a, kind, iso, kmode, 'set_num_gauss', n2, add, direct, dict(vec, set_num_gauss=n2))
         except fxc.BadReturn as ex:
@@ -1052,12 +1063,19 @@ def run(ctx):
                                  '3 temperatures, quadratures with 1/mu in {1,2,4}; k-table mode: 2 layers, 2-3 points, 6 rows, 2 weight sets',
                       vectors='3 (4) layers, rows with distinct depths incl. saturated columns, 6..27 temperature profiles, 5 quadratures, eclipse + direct; '
                               'k-table mode: 2-3 layers, 2-3 points with different coefficients, visible and opaque surfaces',
-                      traces='random atmospheres 2..30 layers, 2..5 wavenumbers, ngauss 1..8, depths 0..60 ln2 per layer; random k-table atmospheres',
+                      traces='random atmospheres 2..30 layers, 2..5 wavenumbers, ngauss 1..8, depths 0..60 ln2 per layer; random k-table atmospheres; '
+                             'extreme atmospheres: 20..60 layers with temperature steps 1e-3..1e-7 relative, grids 10..316 and 9000..40000 cm-1, '
+                             'ngauss up to 64 through the constructor and through set_num_gauss on every model; Planck pairs 1..50000 cm-1 x 50..40000 K',
+                      readings='binding A under 7 (quick) / 9 (thorough) readings of the Planck table: spacing of the layer temperatures wide, 1e-3, 1e-5, '
+                               '1e-6, 1e-8 relative; regimes x = h c nu / k T from 4e-4 (2 cm-1, 7000 K star) to 144 (40000 cm-1, 400 K); the two extreme '
+                               'ones also in correlated-k mode',
                       calls='every walk of 2 (quick) / 3 (thorough) public calls over {model, partial_model, model_contrib, model_full_contrib, '
                             'path_integral} on one model with 3 opacity sources (2 molecules of one contribution + a grey contribution), 2-3 layers, '
                             '3-4 source sets (transparent, zero, saturating on its own), eclipse + direct; one such walk on every random atmosphere',
                       history='TLC-generated set/eval walks (depth 9, 3 settings x 3 values) on long-lived Emission / DirectImage models')
-    ctx.assumptions = ['Planck table: plain-Python CODATA-2018 evaluation in the harness (compared with the repository kernel as a separate clause)',
+    ctx.assumptions = ['Planck table: plain-Python CODATA-2018 evaluation (math.expm1) in the harness; the repository kernel is compared with it pair by '
+                       'pair within the rounding spec/PlanckTol.tla licenses for the documented formula, 1e-14 + 2^-52 (2/x + 4x)',
+                       'exact comparisons at 1e-12 + twice the licensed Planck rounding of the reading (derivation in spec/MC_Emission.tla)',
                        'per-layer cross-sections are scaled with the model\'s own deltaz and densityProfile (layer geometry is C11)',
                        'k-table files: PickleKTable layout written by the harness; pressure grid = layer pressures, values constant in T',
                        'history: every model owns the opacity / k-table objects it has loaded (installed in the cache singletons '
